@@ -217,6 +217,10 @@ class Sim:
             self.transport_paused = False
             o.resumeProducing()
         elif k == "lost":
+            if self.decide("transport_reports_loss_first"):
+                # a real Twisted transport calls producer.stopProducing() from its own connectionLost, before the protocol/Manager hear of it
+                self.log.append(("transport-stopProducing",))
+                o.stopProducing()
             o.stop_using_connection()
             self.conn = None
             self.transport_paused = True
